@@ -97,6 +97,14 @@ CHECKS = {
             "step points are enumerated, interleavings inside a step and tokio scheduling are sampled; manual FLUSH blocks the shard mailbox and "
             "cannot interleave with reads (covered by C01/C02)",
             "DESIGN.md §4 C03"),
+    "C04": ("exploration",
+            "runtime monitoring: sequence oracle on REPLAY against the per-context append list, with read-path delays forcing both stream arrival orders",
+            "Contexts with interleaved appends of two event types are replayed (typed, typed+RETURN, SINCE..USING, wildcard) after every "
+            "second step of histories that place FLUSH / auto-flush / compaction rounds / restarts between the appends (all single placements "
+            "in a 6-append sequence + random histories), under zone sizes 1-3, fill 1-50, fan-in 2-3, each replay without delay and with a "
+            "15 ms delay at rd.memtable_flow_start resp. rd.segment_flow_start.",
+            "single writer per history so apply order = issue order; the layout class in signatures is derived from the history",
+            "DESIGN.md §4 C04"),
 }
 
 PENDING_REASON = "check not built yet in this session (see DESIGN.md §10 for the order); no claim is made"
